@@ -108,10 +108,27 @@ def host_stdout(h, magic):
     return b""
 
 
+def tmo_of(h):
+    """how a timed-out command behaves: idle (silent: the watchdog's SIGALRM interrupts xpoll) or chatty (keeps the
+    worker busy with output: the worker notices the expiry itself at the top of its poll loop); on SIGTERM it dies
+    (end "d") or, trapping TERM, exits with a code (end ("e", code))"""
+    return h.get("tmo") or {"kind": "idle", "end": "d"}
+
+
+def tmo_wait(h):
+    t = tmo_of(h)
+    return "s15" if t["end"] == "d" else "e%d" % t["end"][1]
+
+
+def gen_tmo(rng):
+    return {"kind": rng.choice(["idle", "chatty", "chatty"]),
+            "end": rng.choice(["d", "d", ("e", 0), ("e", 0), ("e", rng.choice([1, 7, 143, 255]))])}
+
+
 def wait_tok(h):
     k, v = h["outcome"]
     if h["chan"] == "exec":
-        return {"exited": "e%d" % v, "killed": "s%d" % v, "cf": "null", "to": "s15"}[k]
+        return {"exited": "e%d" % v, "killed": "s%d" % v, "cf": "null", "to": tmo_wait(h)}[k]
     return None
 
 
@@ -119,7 +136,7 @@ def script_fields(h, magic, real_xd):
     """(harness fields, model fields) of one target"""
     k, v = h["outcome"]
     common = ["c%d" % (0 if k == "cf" else 1), "o" + hexs(host_stdout(h, magic))]
-    tail = ["d%d" % h["delay"], "t%d" % (1 if k == "to" else 0)]
+    tail = ["d%d" % h["delay"], "t%d" % ((2 if tmo_of(h)["kind"] == "chatty" else 1) if k == "to" else 0)]
     w = wait_tok(h)
     if h["chan"] == "raw":
         return common + ["v%d" % h["rv"]] + tail, common + ["v%d" % h["rv"]] + tail
@@ -138,8 +155,19 @@ def scn_lines(scn, magic, real_xd):
     return head + ";".join(hf), head + ";".join(mf)
 
 
+def spec_tok(h):
+    """the specification's description of one target.  A command that timed out and, terminated by pdsh, still
+    RETURNED a code (it traps TERM; only the exec channel reports that code) is described by both facts: the
+    time-out and the return code -- "the largest return code of any remote command, raised to 254 if any host ...
+    timed out" takes the maximum over both (differs from the plain time-out only for code 255)."""
+    t = tok(h["outcome"])
+    if h["outcome"][0] == "to" and h["chan"] == "exec" and tmo_of(h)["end"] != "d":
+        t += ",e%d" % tmo_of(h)["end"][1]
+    return t
+
+
 def spec_line(scn, exit_status):
-    outs = ",".join(tok(h["outcome"]) for h in scn["hosts"]) or "-"
+    outs = ",".join(spec_tok(h) for h in scn["hosts"]) or "-"
     return "adm %d %d 0 %s %d" % (scn["S"], scn["k"], outs, exit_status)
 
 
@@ -262,7 +290,8 @@ def gen_cli_scenario(rng, magic, allow_timeout):
     if allow_timeout:
         cmdtmo = 1
         i = rng.randrange(n)
-        hosts[i] = {"chan": "exec", "outcome": ("to", 0), "out": b"", "pre": b"", "late": b"", "delay": 0}
+        hosts[i] = {"chan": "exec", "outcome": ("to", 0), "out": b"", "pre": b"", "late": b"", "delay": 0,
+                    "tmo": gen_tmo(rng)}
         if n > 1 and rng.random() < 0.7:     # the order-dependent overwrite needs a 255 before the failed host
             j = rng.randrange(n - 1)
             j = j if j < i else j + 1
@@ -286,7 +315,10 @@ def cli_argv(pdsh, helper, scn, magic):
             argv.append("o%s:e0" % hexs(host_stdout(h, magic)))
         else:
             pre = "c%d_" % h["close_ms"] if h.get("close_ms") and k in ("exited", "killed") else ""
-            argv.append("o-:" + pre + {"exited": "e%d" % v, "killed": "s%d" % v, "to": "t30"}[k])
+            t = tmo_of(h)
+            tspec = "t30" if t["kind"] == "idle" and t["end"] == "d" else \
+                    ("y%d_%s" % (20 if t["kind"] == "chatty" else 400, "d" if t["end"] == "d" else "e%d" % t["end"][1]))
+            argv.append("o-:" + pre + {"exited": "e%d" % v, "killed": "s%d" % v, "to": tspec}[k])
     return argv
 
 
@@ -311,8 +343,10 @@ def cli_model_line(scn, magic):
         if h["chan"] == "inband":
             fs.append("c1,o%s,we0,d0,t0" % hexs(host_stdout(h, magic)))
         else:
-            fs.append("c1,o-,w%s,d0,t%d" % ({"exited": "e%d" % v, "killed": "s%d" % v, "to": "s15"}[k],
-                                            1 if k == "to" else 0))
+            chatty = k == "to" and not (tmo_of(h)["kind"] == "idle" and tmo_of(h)["end"] == "d")
+            fs.append("c1,o%s,w%s,d0,t%d" % ("780a" if chatty else "-",
+                                             {"exited": "e%d" % v, "killed": "s%d" % v, "to": tmo_wait(h)}[k],
+                                             (2 if chatty else 1) if k == "to" else 0))
     return "dsh %d %d %d %d %s" % (scn["S"], scn["k"], scn["fanout"], scn["cmdtmo"], ";".join(fs))
 
 
@@ -484,12 +518,40 @@ def run(ctx):
             dist["exhaustive_vectors"] = len(ex)
             scns += ex
         raws = [gen_raw_scenario(rng, magic) for _ in range(150 if ctx.quick() else 3000)]
-        if ctx.quick():
-            tmo = gen_scenario(rng, magic, 3)
-            tmo.update(S=1, k=0, cmdtmo=1, fanout=32)
-            tmo["hosts"] = [{"chan": "exec", "outcome": ("exited", 255), "out": b"", "pre": b"", "late": b"", "delay": 0},
-                            {"chan": "inband", "outcome": ("to", 0), "out": b"x\n", "pre": b"", "late": b"", "delay": 0}]
-            scns.append(tmo)
+        # time-outs (-u 1): an idle or a CHATTY command (the latter makes the worker notice the expiry itself at the top of
+        # its poll loop), dying on SIGTERM or trapping it and returning a code; 1-2 s each, one harness process each
+        tscns = []
+        for _ in range(6 if ctx.quick() else 40):
+            n = rng.choice([1, 2, 3])
+            hosts = [{"chan": "exec", "outcome": ("exited", rng.choice([0, 0, 3, 255])), "out": b"", "pre": b"", "late": b"",
+                      "delay": 0} for _ in range(n)]
+            hosts[rng.randrange(n)] = {"chan": "exec", "outcome": ("to", 0), "out": b"", "pre": b"", "late": b"", "delay": 0,
+                                       "tmo": gen_tmo(rng)}
+            tscns.append({"S": rng.choice([1, 1, 1, 0]), "k": rng.choice([0, 0, 0, 1]), "fanout": 32, "cmdtmo": 1, "hosts": hosts})
+        tl = [scn_lines(s, magic, real_xd) for s in tscns]
+        with concurrent.futures.ThreadPoolExecutor(max_workers=8) as ex:
+            timpl = list(ex.map(lambda l: run_batch([exe], [[l[0]]], env=env, timeout=120)[0], tl))
+        tmod = ctx.model("exit", "".join(l[1] + "\n" for l in tl), args=["model", bits])
+        tbad = []
+        for s, (h_, m_in), (ans, crash), m in zip(tscns, tl, timpl, tmod):
+            cov["evaluations"] += 1
+            dist["dsh_timeouts"] = dist.get("dsh_timeouts", 0) + 1
+            kk = tmo_of([x for x in s["hosts"] if x["outcome"][0] == "to"][0])
+            dist.setdefault("timeout_kinds", {})
+            key = "%s/%s" % (kk["kind"], "dies" if kk["end"] == "d" else "traps-exit-%d" % kk["end"][1])
+            dist["timeout_kinds"][key] = dist["timeout_kinds"].get(key, 0) + 1
+            distinct.add(("dsh", h_))
+            if crash is not None or not ans:
+                ctx.offender("crash", "dsh() harness aborts/hangs: %s" % (crash or "")[-400:], {"op": h_})
+                continue
+            if ans[0] != m:
+                ctx.disagreement("exit model vs dsh() (time-out)", "impl `%s` model `%s`" % (ans[0], m),
+                                 {"harness_op": h_, "model_op": m_in})
+            e = exit_of(ans[0])
+            spl = spec_line(s, e if e is not None else 999)
+            if ctx.model("exit", spl + "\n", args=["spec"])[0] != "ok":
+                tbad.append((s, h_, m_in, ans[0], spl, exit_of(m) == e))
+        report_bad(ctx, tbad, bits, "dsh()")
         allsc = [(s, True) for s in scns] + [(s, False) for s in raws]
         hl, ml = [], []
         for s, _ in allsc:
@@ -760,7 +822,7 @@ def report_bad(ctx, bad, bits, where):
             # the model does not reproduce this exit status, so none of the modelled defects explains it
             fixset = "unexplained"
         flags = ("S" if s["S"] else "") + ("k" if s["k"] else "") or "plain"
-        outs = ",".join(tok(hh["outcome"]) + ("/" + hh["chan"] if hh["chan"] != "raw" else "") for hh in s["hosts"])
+        outs = ",".join(spec_tok(hh).replace(",", "+") + ("/" + hh["chan"] if hh["chan"] != "raw" else "") for hh in s["hosts"])
         ctx.offender("%s:needs-fix:%s" % (flags, fixset),
                      "%s with flags -%s and outcomes [%s] ends with `%s`, which the specification does not admit "
                      "(smallest set of proposed repairs that makes it admissible: %s)" % (where, flags, outs, ans, fixset),
